@@ -62,8 +62,8 @@ impl Property for C06 {
     }
     fn runs(&self, tier: Tier) -> u64 {
         match tier {
-            Tier::Quick => 30_000,
-            Tier::Thorough => 1_200_000,
+            Tier::Quick => 100_000,
+            Tier::Thorough => 2_400_000,
         }
     }
     fn gen(&self, run_seed: u64, _tier: Tier) -> Value {
